@@ -432,7 +432,7 @@ def expected_runs(dec, occs, when, epochs=None):
         if _passes(dec, args):
             args = dict(args)
             args.update(dec.get("kwargs") or {})
-            out.append((_kw_key(args), j))
+            out.append((_kw_key(args), j, occ[6]))
     return out
 
 
@@ -445,6 +445,13 @@ def compute_hints(case, occs, when, trace):
         tix = [i for i, t in enumerate(trigs) if t[0] == fn["name"]]
         exp = [expected_runs(trigs[i][1], occs, when, trigs[i][3]) for i in tix]
         obs = [(j, _kw_key(e["kw"])) for j, e in enumerate(trace) if e["o"] == "running" and e["fn"] == fn["name"]]
+        # reloads happen at quiescent points, so a run starts in the epoch of its occurrence = the epoch of the latest hand-over
+        # before it (keeps incarnations of one function apart when their kwargs are identical, e.g. webhook / mqtt messages)
+        cur_ep, ep_at = 0, {}
+        for j, e in enumerate(trace):
+            if e["o"] in ("bus", "fire"):
+                cur_ep = e.get("ep", 0)
+            ep_at[j] = cur_ep
         # breadth-first over position vectors, remembering one assignment per vector
         states = {tuple(0 for _ in tix): []}
         done = 0
@@ -452,7 +459,7 @@ def compute_hints(case, occs, when, trace):
             nxt = {}
             for pos, assign in states.items():
                 for k in range(len(tix)):
-                    if pos[k] < len(exp[k]) and exp[k][pos[k]][0] == key and exp[k][pos[k]][1] < j:
+                    if pos[k] < len(exp[k]) and exp[k][pos[k]][0] == key and exp[k][pos[k]][1] < j and exp[k][pos[k]][2] == ep_at[j]:
                         np_ = pos[:k] + (pos[k] + 1,) + pos[k + 1:]
                         if np_ not in nxt:
                             nxt[np_] = assign + [k]
